@@ -68,7 +68,12 @@ def e_items(m):
     NP.new_cells("both", formula="lambda: n * 100 + r * 10 + g")
     S.P = P
     S.new_cells("o", formula="lambda t: P[1].hh(t) + P(2, 3).h(t) + P(2).PC.pc() + P[1].NP[t].both()")
-    return [("S", "o", ("T",)), ("P", "h", ("T",), (1,)), ("P", "hh", ("T",), (2, 5))]
+    B = m.new_space("B", formula="lambda max, id=2: None")          # parameters named like built-ins
+    B.new_cells("bf", formula="lambda t: max * t + id + len([t])")
+    B.new_space("BC").new_cells("cf", formula="lambda: max + id * 10")
+    S.B = B
+    S.new_cells("ob", formula="lambda t: B[3].bf(t) + B(4, 5).BC.cf()")
+    return [("S", "o", ("T",)), ("P", "h", ("T",), (1,)), ("P", "hh", ("T",), (2, 5)), ("S", "ob", ("T",)), ("B", "bf", ("T",), (7,))]
 
 
 def e_refs(m):
@@ -88,9 +93,23 @@ def e_refs(m):
     return [("S", "o", ("T",)), ("S.Sub", "sc", ())]
 
 
+from c15types import Pct, Basis     # noqa: E402
+
+
+def e_subclass_refs(m):
+    S = _base(m)
+    S.pct = Pct(0.5)
+    S.basis = Basis.MONTHLY
+    S.new_cells("grow", formula="lambda t: int(pct.factor() * 2) + t + x")
+    S.new_cells("kind", formula="lambda: type(pct).__name__ + ':' + basis.name")
+    S.new_cells("per", formula="lambda t: t * int(basis) + g")
+    return [("S", "grow", ("T",)), ("S", "kind", ()), ("S", "per", ("T",))]
+
+
 CORPUS = [("call chain, recursion, uncached", e_chain), ("nested def/lambda, local named max, comprehensions, defaults", e_syntax),
           ("inheritance and overriding", e_inherit), ("ItemSpaces with defaults, child and nested parametric space", e_items),
-          ("literal, pickled and object-valued references, child space attribute", e_refs)]
+          ("literal, pickled and object-valued references, child space attribute", e_refs),
+          ("references whose values are instances of subclasses of float / int (user class, IntEnum)", e_subclass_refs)]
 _EXPORTED = {}
 
 
@@ -152,11 +171,12 @@ def _export(entry):
             want[_qkey(q, t)] = _eval_side(m, q, t, False)
     m.close()
     code = ("import sys, json\nsys.modules['modelx'] = None\nsys.path.insert(0, %r)\nimport %s as pkg\n"
-            "sys.path.insert(0, %r)\nimport c15\nout = {}\n"
+            "sys.path.insert(0, %r)\nimport c15shared as c15\nout = {}\n"
             "for q in %r:\n    for t in (0, 1, 2):\n        out[c15._qkey(q, t)] = c15._eval_side(pkg.mx_model, tuple(q), t, True)\nprint('RESULT ' + json.dumps(out))\n"
             % (base, pkg, _os.path.dirname(_os.path.abspath(__file__)), [list(q) for q in queries]))
     # the helper functions are needed without modelx: run them from a stripped copy
-    helper = _os.path.join(base, "c15.py")
+    helper = _os.path.join(base, "c15shared.py")
+    _sh.copyfile(_os.path.join(_os.path.dirname(_os.path.abspath(__file__)), "c15types.py"), _os.path.join(base, "c15types.py"))
     if not _os.path.exists(helper):
         src = open(_os.path.abspath(__file__)).read()
         start, end = src.index("# --- shared" + " with the modelx-free subprocess"), src.index("# --- end" + " shared")
@@ -252,6 +272,6 @@ QUERIES = [
           bounds=lambda tier: {"corpus": [c[0] for c in CORPUS], "reference_values": "g, x, bx, z, k: unbounded symbolic ints on both sides", "cells_argument": "0..2",
                                "without_modelx": "each corpus entry imported in a subprocess with sys.modules['modelx'] = None, default values, t in 0..2"},
           outside=["pandas / Excel IO specs in the package", "models outside the documented export subset (relative references in ItemSpaces, coercion of scalar cells)",
-                   "models outside the 5 corpus entries"]),
+                   "models outside the corpus entries"]),
 ]
 BUDGET = {"quick": 420, "thorough": 1200}
